@@ -54,6 +54,12 @@ def seq_case(item):
                 amt = 128.0 if move == "flow+" else -64.0
                 t.apply(["adjust", [], amt, True])
                 base = base + amt
+            if move == "trade":
+                # a trade booked earlier in the same bar (update requested, nothing read since):
+                # the strategy's value is unchanged by a cost-free trade at the current price
+                if fee is None and spread is None:
+                    kid = "a" if spec["shape"] == "T1c" else "b"
+                    t.apply(["transact", [], kid, 2.0])
             scale = max(abs(base), T.gross(t))
             temp = {"weights": dict(tw)}
             if cash is not None:
@@ -221,6 +227,8 @@ def run(ctx):
         targets = TARGETS_FLAT if spec["shape"] == "T1c" else TARGETS_NESTED
         steps = [(mv, tw, c) for mv in ("stay", "next") for tw in targets for c in CASHES]
         steps += [(mv, tw, c) for mv in ("flow+", "flow-") for tw in targets[1:4] for c in (None, 0.25)]
+        if spec.get("fee") is None and spec.get("spread") is None:
+            steps += [("trade", tw, c) for tw in targets[1:5] for c in (None, 0.25)]
         first = [s for s in steps if s[0] == "stay"]
         seqs = []
         for d in range(1, depth + 1):
